@@ -73,11 +73,11 @@ type ov struct {
 }
 
 type model struct {
-	vers  []map[int]uint64 // vers[v] = content committed as version v (vers[0] empty)
-	cons  map[int]ov
-	mem   map[int]ov
-	consOps map[int]int // number of pending consensus set/del operations per key since the last commit
-	memOps  map[int]int
+	vers       []map[int]uint64 // vers[v] = content committed as version v (vers[0] empty)
+	cons       map[int]ov
+	mem        map[int]ov
+	consOps    map[int]int // number of pending consensus set/del operations per key since the last commit
+	memOps     map[int]int
 	memUnknown map[int]bool // keys whose mempool view is not fixed by the statement until the next commit
 }
 
